@@ -95,6 +95,14 @@ Inductive guard_kind :=
 | GDefault                   (* `wrapper.optional and wrapper.default is None` *)
 | GDefaultAndDefaults.       (* ... `and all(default in (None, SUPPRESS) for default in wrapper.defaults)` *)
 Inductive dsource := SManual | SSubgroup | SParentDefaults | SFieldDefault | SFactory | SStoreTrue | SStoreFalse.
+Inductive dvsrc := DvDefault | DvFactory.        (* utils.default_value: `field.default is not MISSING`, `field.default_factory is not MISSING` *)
+Inductive mreset :=                               (* DataclassWrapper.merge: whose field wrappers get set_default(None) *)
+| MrSelf | MrOther | MrNone.
+Inductive len_test := LenEqN | LenEqOne.          (* duplicate_if_needed: tests of the final chain on len(parsed_values) *)
+Inductive dup_act := DAsIs | DTimesN | DInconsistent.
+(* the arms of FieldWrapper.postprocess, by what their body does (tied to Model/Leaf.v postprocess by a lemma in the proofs) *)
+Inductive post_arm :=
+| PaEnumByName | PaChoiceDict | PaTupleOfSeq | PaBoolId | PaListOfTuple | PaSubparserId | PaOptTupleOfList | PaCallType.
 Inductive pk_test :=
 | PkSingleValue              (* the default is one value for one destination (repaired trees only) *)
 | PkContainerTypeAndLenNeN   (* utils.is_tuple_or_list(self.field.type) and len(default) != n_destinations *)
@@ -158,6 +166,10 @@ Fixpoint count_members_fld (f : fld) : nat :=
   match f with FLeaf _ _ _ _ => 0 | FNest _ _ _ cfs _ => S (list_sum (map count_members_fld cfs)) end.
 Definition count_members (fs : list fld) : nat := list_sum (map count_members_fld fs).
 
+(* python `l * n` *)
+Fixpoint list_times {A} (l : list A) (n : nat) : list A :=
+  match n with 0 => [] | S k => (l ++ list_times l k)%list end.
+
 Section MapRes.
   Context {A B : Type}.
   Variable f : A -> res B.
@@ -181,6 +193,14 @@ Section WithFacts.
   Variable merge_rest_sorted : bool.        (* _fix_conflict_merge loops over the sorted list (false today: conflict.wrappers[1:]) *)
   Variable max_attempts : nat.
   Variable resolve : (fw -> list string) -> crmode -> list fw -> res (list fw).     (* Gen/FactsConflicts.resolve_gen *)
+  Variable dv_srcs : list dvsrc.            (* utils.default_value: which sources of a member's default it looks at, in order *)
+  Variable merge_resets : mreset.           (* DataclassWrapper.merge resets `_default` of self.fields (MrSelf today) *)
+  Variable dup_chain : list (len_test * dup_act).   (* duplicate_if_needed: final if/elif chain on len(parsed_values) *)
+  Variable dup_else : dup_act.
+  Variable init_caches : bool.              (* DataclassWrapper.__init__ evaluates field_wrapper.default and self.defaults (debug
+                                               messages): `_destinations` and `_defaults` are cached when the wrapper is created *)
+  Variable forwards_default : bool.         (* add_arguments -> _add_arguments -> DataclassWrapper(..., default=default) *)
+  Variable pipeline_std : bool.             (* parse_known_args: _preprocessing, argparse, _postprocessing = fill then instantiate *)
 
   (* ---------- FieldWrapper.default, before packaging ---------- *)
   (* manual = `_default`; defs = parent.defaults.  Result: the default and whether it is a single value. *)
@@ -237,11 +257,21 @@ Section WithFacts.
   Definition child_default (wd : option vt) (n : string) : option vt :=
     match wd with Some D => some_inst (attr D n) | None => None end.
   (* DataclassWrapper.defaults of a child wrapper *)
+  (* utils.default_value(field) of a member; None = dataclasses.MISSING *)
+  Fixpoint dvalue (srcs : list dvsrc) (cn : string) (cfs : list fld) (nd : ndef) : option vt :=
+    match srcs with
+    | [] => None
+    | DvDefault :: r => match nd with DNone => Some vnone | _ => dvalue r cn cfs nd end
+    | DvFactory :: r => match nd with DNone => dvalue r cn cfs nd | _ => Some (default_value cn cfs nd) end
+    end.
+  Definition dvalues (cn : string) (cfs : list fld) (nd : ndef) : list vt :=
+    match dvalue dv_srcs cn cfs nd with Some v => [v] | None => [] end.
+
   Definition child_defaults (cd : option vt) (defs : list vt) (n cn : string) (cfs : list fld) (nd : ndef) : list vt :=
     match cd with
     | Some c => [c]
     | None => match defs with
-              | [] => [default_value cn cfs nd]
+              | [] => dvalues cn cfs nd
               | _ => map (fun D => if is_vnone D then vnone else attr D n) defs
               end
     end.
@@ -340,11 +370,13 @@ Section WithFacts.
     | Some l => Ok l
     | None =>
         let vs := match v with VList l | VTup l => l | _ => [v] end in
-        if Nat.eqb (List.length vs) n then Ok vs
-        else match vs with
-             | [x] => Ok (repeat x n)
-             | _ => Err Inconsistent
-             end
+        let act a := match a with DAsIs => Ok vs | DTimesN => Ok (list_times vs n) | DInconsistent => Err Inconsistent end in
+        (fix go (chain : list (len_test * dup_act)) : res (list value) :=
+           match chain with
+           | [] => act dup_else
+           | (LenEqN, a) :: r => if Nat.eqb (List.length vs) n then act a else go r
+           | (LenEqOne, a) :: r => if Nat.eqb (List.length vs) 1 then act a else go r
+           end) dup_chain
     end.
 
   (* ---------- the same class at every destination, nothing else shared (see merge_clean in DefaultsSpec) ---------- *)
@@ -366,7 +398,7 @@ Section WithFacts.
     | FNest n opt cn cfs nd =>
         if opt then Err (Raise "OptionalMemberNotModelled") else
         let cdefs := match defs with
-                     | [] => repeat (default_value cn cfs nd) k
+                     | [] => List.concat (repeat (dvalues cn cfs nd) k)
                      | _ => map (fun D => attr D n) defs
                      end in
         match map_res (uni_fld k i cdefs) cfs with
@@ -420,7 +452,10 @@ Section WithFacts.
     mkw (w_key w) (w_path w) (w_cn w) (w_cls w) (w_leaves w) (w_parent w) (w_optional w) (w_default w) (w_defaults w) (w_dests w) c.
   Definition set_merged (w : wrap) (dests : list string) (defs : list vt) : wrap :=
     mkw (w_key w) (w_path w) (w_cn w) (w_cls w)
-        (map (fun l => mklf (lf_name l) (lf_ty l) (lf_d l) (lf_fac l) None) (w_leaves w))   (* set_default(None) on every field *)
+        (match merge_resets with
+         | MrSelf => map (fun l => mklf (lf_name l) (lf_ty l) (lf_d l) (lf_fac l) None) (w_leaves w)   (* set_default(None) on self.fields *)
+         | MrOther | MrNone => w_leaves w       (* the absorbed wrapper is dropped: resetting its fields changes nothing *)
+         end)
         (w_parent w) (w_optional w) (w_default w) defs dests (w_children w).
 
   Definition getw (st : store) (k : string) : res wrap :=
@@ -720,6 +755,7 @@ Section WithFacts.
   Definition max_level (ws : list wrap) : nat := fold_right (fun w m => Nat.max (wlevel w) m) 0 ws.
 
   Definition parse_merge (opts : fw -> list string) (f : forest) : res (list (string * vt)) :=
+    if negb init_caches then Err (Raise "LazyWrapperStateNotModelled") else
     let st0 := build_forest f in
     match merge_loop opts max_attempts st0 (map w_key st0) with
     | Err e => Err e
@@ -785,7 +821,12 @@ Section WithFacts.
   Definition api_ok (c : pcfg) (f : forest) : bool :=
     match p_api c with AParser => true | AParse => Nat.eqb (List.length f) 1 end.
 
-  Definition sp_parse_empty (c : pcfg) (f : forest) : res (list (string * vt)) :=
+  Definition strip_defaults (f : forest) : forest := map (fun e : entry => (fst e, None)) f.
+  Definition resets_self : bool := match merge_resets with MrSelf => true | _ => false end.
+
+  Definition sp_parse_empty (c : pcfg) (f0 : forest) : res (list (string * vt)) :=
+    if negb pipeline_std then Err (Raise "PipelineNotModelled") else
+    let f := if forwards_default then f0 else strip_defaults f0 in        (* what the dataclass wrappers are handed *)
     if negb (api_ok c f) then Err (Raise "TypeError") else                 (* parse() takes exactly one class *)
     if (match p_api c with AParse => negb parse_is_parser | AParser => false end) then Err (Raise "ParseHelperNotModelled") else
     if negb deepest_first && forest_nested f then Err (Raise "AssertionError") else   (* a parent popped before its members *)
@@ -796,7 +837,7 @@ Section WithFacts.
                   | Ok _ => Ok (parse_plain f)
                   end
     | MMerge =>
-        if uniform_scope f then
+        if uniform_scope f && resets_self && init_caches then
           if same_field_clashes (p_cfg c) then
             match f with
             | [_] => Ok (parse_plain f)                                   (* nothing is merged *)
